@@ -494,7 +494,103 @@ pub fn same_shape_decoy(src: &str) -> String {
 /// Parses and lints a decoy text in `buf` (results ignored, panics caught);
 /// a generated decoy program is also executed.
 /// Says and computes ordinary values of every kind (see the decoy selection).
-const WARM_UP: &str = "Say 0\nSay 1\nSay 0 minus 1\nSay 0.5\nSay 2 over 3\nSay 1000000\nSay \"0\" plus 0\nSay 1 plus \" level\"\nSay true\nSay false\nSay nothing\nSay mysterious\nSay \"\"\nSay \"text\"\nPut 0 into Zero\nBuild Zero up\nKnock Zero down\nSay Zero\nLet Shelf at 0 be \"zero\"\nLet Shelf at \"key\" be \"value\"\nLet Shelf at \"other\" be \"thing\"\nSay Shelf at 0\nJoin Shelf into Glue\nSay Glue\nCut \"a,b\" into Pieces with \",\"\nSay Pieces at 1\nCast \"12\" into Twelve\nSay Twelve\nTurn up Twelve\nEcho takes Sound\nGive back Sound plus Sound\n\nSay Echo taking 0\nSay Echo taking \"x\"\n";
+const WARM_UP: &str = "Say 0\nSay 1\nSay 0 minus 1\nSay 0.5\nSay 2 over 3\nSay 1000000\nSay \"0\" plus 0\nSay 1 plus \" level\"\nSay true\nSay false\nSay nothing\nSay mysterious\nSay \"\"\nSay \"text\"\nPut 0 into Zero\nBuild Zero up\nKnock Zero down\nSay Zero\nLet Shelf at 0 be \"zero\"\nLet Shelf at \"key\" be \"value\"\nLet Shelf at \"other\" be \"thing\"\nSay Shelf at 0\nJoin Shelf into Glue\nSay Glue\nCut \"a,b\" into Pieces with \",\"\nSay Pieces at 1\nCast \"12\" into Twelve\nSay Twelve\nTurn up Twelve\nEcho takes Sound\nGive back Sound plus Sound\n\nSay Echo taking 0\nSay Echo taking \"x\"\nPut \"ĠġĢģĤĥĦħĨĩĪīĬĭĮįİıĲĳĴĵĶķĸĹĺĻļĽľĿŀŁłŃńŅņŇňŉŊŋŌōŎŏŐőŒœŔŕŖŗŘřŚśŜŝŞşŠšŢţŤťŦŧŨũŪūŬŭŮůŰűŲųŴŵŶŷŸŹźŻżŽž\" into Cousins\nSay Cousins at 33\nCut Cousins into Bits\nSay Bits at 65\nJoin Bits\nSay 256 plus 0\nSay 65536 plus 48\nSay 0 minus 0\nSay \"TEXT\"\nSay \" text \"\n";
+
+/// The process warm-up (see `Property::process_warm_up`): a fixed set of
+/// programs - the warm-up program, programs that listen (input starting with
+/// a byte order mark, CR LF line ends), programs that fail in the common ways
+/// at parse time and at run time, lint bait - and forty generated ones, each
+/// parsed, linted and run once in this process.
+fn warm_up_process() {
+    let fixed: &[(&str, &[u8])] = &[
+        (WARM_UP, b"decoy line\n"),
+        ("Listen to Line\nSay Line\nListen to Line\nSay Line\nListen\nListen to Line\nSay Line\n", "\u{feff}first\nsecond\r\nthird".as_bytes()),
+        ("Put \"41\" into Count\nBuild Count up\n", b""),
+        ("Say Nobody Home\n", b""),
+        ("Put 1 into Arr at true\n", b""),
+        ("Say 1 is greater than \"x\"\n", b""),
+        ("Say \"never closed\n", b""),
+        ("Say under_score and ab1c @\n", b""),
+        ("Put into\n", b""),
+        ("Put 5 into Five\nPut 5 into Five\nSay Five\nSay Five\nPut \"lit\" into Lit\n", b""),
+        ("Let Box at \"b\" be 1\nLet Box at \"a\" be 2\nJoin Box into Glue\n", b""),
+        ("Cast \"zz\" into Number\n", b""),
+        ("Knock \"7\" down\n", b""),
+    ];
+    let cfg = Config {
+        hash_seed: 0,
+        fresh_thread: false,
+        heap_junk: 0,
+        sched: Schedule::plain(),
+        run_using: false,
+    };
+    for (src, input) in fixed {
+        let _ = observe(src, input, &cfg);
+    }
+    for k in 0..40u64 {
+        let mut t = Tape::record(0x5eed_0000 + k);
+        let (src, input) = match k % 3 {
+            0 => {
+                let p = gen_dict_program(&mut t);
+                (p.source, p.input)
+            }
+            1 => {
+                let s = crate::soup::gen_soup(&mut t);
+                (s.source, s.input)
+            }
+            _ => {
+                let sc = crate::c08::gen_scenario(&mut t);
+                (sc.source, sc.input)
+            }
+        };
+        let _ = observe(&src, &input, &cfg);
+    }
+}
+
+const NEIGHBOUR: &str = "Put 0 into Ticks\nWhile Ticks is less than 400000\nBuild Ticks up\n\nSay Ticks\n";
+const NEIGHBOUR_EXPECTED: &str = "Ok, said 400000";
+
+/// Observes the program once more while three other threads of this process
+/// each run the neighbour program (all four start together). Returns the
+/// observation and how each neighbour ended.
+fn observe_among_neighbours(source: &str, input: &[u8], cfg: &Config) -> (Obs, Vec<String>) {
+    let barrier = std::sync::Barrier::new(4);
+    std::thread::scope(|s| {
+        let handles: Vec<_> = (0..3u64)
+            .map(|k| {
+                let barrier = &barrier;
+                std::thread::Builder::new()
+                    .stack_size(16 << 20)
+                    .spawn_scoped(s, move || {
+                        barrier.wait();
+                        match guarded(|| {
+                            rrss::verif_seams::set_hash_seed(k + 1);
+                            let program = match rrss::frontend::parser::parse(NEIGHBOUR) {
+                                Ok(p) => p,
+                                Err(e) => return format!("parse error: {}", e),
+                            };
+                            let mut out = Vec::new();
+                            match rrss::exec::exec_using(&b""[..], &mut out, &program) {
+                                Ok(()) => format!("Ok, said {}", String::from_utf8_lossy(&out).trim_end()),
+                                Err(e) => format!("Err: {}", e),
+                            }
+                        }) {
+                            Ok(t) => t,
+                            Err(m) => format!("PANIC: {}", m),
+                        }
+                    })
+                    .expect("spawn")
+            })
+            .collect();
+        barrier.wait();
+        let (obs, _, _) = observe(source, input, cfg);
+        let neighbours = handles
+            .into_iter()
+            .map(|h| h.join().unwrap_or_else(|_| "neighbour thread died".to_string()))
+            .collect();
+        (obs, neighbours)
+    })
+}
 
 fn run_decoy(buf: &mut String, decoy: &str, execute: bool) {
     buf.clear();
@@ -822,6 +918,16 @@ impl Property for C10 {
         "C10"
     }
 
+    fn process_warm_up(&self) {
+        // on a thread of its own with a deep stack, like every scenario
+        std::thread::Builder::new()
+            .stack_size(64 << 20)
+            .spawn(warm_up_process)
+            .expect("spawn")
+            .join()
+            .expect("process warm-up");
+    }
+
     fn plan(&self, tier: Tier) -> Plan {
         match tier {
             Tier::Quick => Plan {
@@ -1112,6 +1218,50 @@ impl Property for C10 {
         }
         res.histories.push(hash_combine(base.hash(), orders.len() as u64));
 
+        // runs going on at the same time on other threads of this process
+        // (rule D5), for a sample of the scenarios: three neighbours count to
+        // 400 000 each while the program is observed once more; the
+        // observation must be the usual one and every neighbour must get to
+        // the end with the right number
+        let nth_neighbours = if ctx.tier == Tier::Thorough { 25 } else { 50 };
+        if ctx.index % nth_neighbours == 3 {
+            stats.inc("fault.configured.concurrent_runs_on_other_threads");
+            stats.inc("fault.fired.concurrent_runs_on_other_threads");
+            let (obs, neighbours) = observe_among_neighbours(&source, &input, &configs[0]);
+            res.executions += 4;
+            let mut detail: Option<String> = None;
+            if obs != base {
+                detail = Some(format!(
+                    "observed while three other threads were running programs, the program differs from itself run alone in: {}",
+                    first_diff_field(&base, &obs)
+                ));
+            } else if let Some(bad) = neighbours.iter().find(|n| n.as_str() != NEIGHBOUR_EXPECTED) {
+                detail = Some(format!(
+                    "a program counting to 400000 on another thread at the same time ended with {:?} instead of {:?}",
+                    bad, NEIGHBOUR_EXPECTED
+                ));
+            }
+            if let Some(detail) = detail {
+                let mut tags: Vec<String> = features.iter().map(|f| f.to_string()).collect();
+                tags.push("concurrent-runs".into());
+                res.violation = Some(Violation {
+                    rule: "C10.D5-disturbed-by-concurrent-runs".into(),
+                    detail,
+                    render: J::obj(vec![
+                        ("program", J::s(source.clone())),
+                        ("input", J::S(render_bytes(&input))),
+                        ("observation_alone", base.to_json()),
+                        ("observation_among_neighbours", obs.to_json()),
+                        ("neighbour_program", J::s(NEIGHBOUR)),
+                        ("neighbours_ended_with", J::A(neighbours.iter().map(|n| J::s(n.clone())).collect())),
+                    ]),
+                    log_hash: hash_combine(key, 5),
+                    tags,
+                });
+                return res;
+            }
+        }
+
         // process arm: the whole of it for a sample of the scenarios, one
         // fresh process (rule D4) for every scenario
         let nth = if ctx.tier == Tier::Thorough { 8 } else { 16 };
@@ -1205,6 +1355,27 @@ fn fresh_process_disagrees(obs: &Obs, r: &procworld::ProcResult) -> Option<Strin
             r.stdout.len(),
             obs.output.len()
         ));
+    }
+    // what the command-line layer's own entry point returned in this process
+    // for the failing run is the whole report: the fresh process prints it,
+    // and the line ends where it ends
+    if let Some(at) = obs.cli.rfind("\ncli::exec::run_using -> Err: ") {
+        let rest = &obs.cli[at + "\ncli::exec::run_using -> Err: ".len()..];
+        if let Some(end) = rest.rfind(" after ") {
+            let report = rest[..end].trim_end_matches('\n');
+            if !report.is_empty() {
+                let found = stderr.match_indices(report).any(|(p, _)| {
+                    let after = &stderr[p + report.len()..];
+                    after.is_empty() || after.starts_with('\n') || after.starts_with("\r\n")
+                });
+                if !found {
+                    return Some(format!(
+                        "run through the command-line layer in this process the program fails with the report {:?}; a fresh process prints another report on standard error",
+                        report
+                    ));
+                }
+            }
+        }
     }
     match obs.result.strip_prefix("Err: ") {
         Some(msg) => {
